@@ -32,8 +32,19 @@ def do_case(ctx, inp):
     seen = []
     for sigma in assignments(ctx.rng, lv, n):
         # a third of the assignments are handed over as numpy integer scalars of the narrowest width that holds them
-        given = {k: np_scalar(ctx.rng, v) for k, v in sigma.items()} if ctx.rng.random() < 0.33 else sigma
+        r_ = ctx.rng.random()
+        given = {k: np_scalar(ctx.rng, v) for k, v in sigma.items()} if r_ < 0.33 else sigma
         if given is not sigma: ctx.tags["assignment-as-numpy-scalars"] += 1
+        elif r_ < 0.55:
+            # … or in the other accepted value forms: numpy arrays [v, v], tuples of numpy integers, Bounds over numpy integers
+            import numpy as _np
+            form = ctx.rng.choice(["array", "nptuple", "npbounds", "mixed"])
+            def one(v):
+                f = form if form != "mixed" else ctx.rng.choice(["array", "nptuple", "npbounds", "int"])
+                return _np.array([v, v]) if f == "array" else (_np.int64(v), _np.int64(v)) if f == "nptuple" else \
+                    puan.Bounds(_np.int64(v), _np.int64(v)) if f == "npbounds" else v
+            given = {k: one(v) for k, v in sigma.items()}
+            ctx.tags["assignment-in-numpy-typed-value-forms"] += 1
         res = o.evaluate_propositions(given)
         x = {}
         for k, b in res.items():
